@@ -264,7 +264,28 @@ def default_lit(s: Struct):
     d = s.default
     if d <= 9:
         return str(d)
-    k = (d ^ s.n) % 4
+    k = (d ^ s.n) % 8
+    if k >= 4:
+        # ordinary Rust integer literals: a type suffix (the storage integer's type), digit separators, or both
+        P = prim(s.n)
+        h = f"{d:x}"
+        parts = []
+        while h:
+            parts.append(h[-4:])
+            h = h[:-4]
+        us = "0x" + "_".join(reversed(parts))
+        if k == 4:
+            return f"{d}{P}"
+        if k == 5:
+            return us + P if not us[-1] in "abcdef" or True else us
+        if k == 6:
+            return us + "_" + P
+        ds = str(d)
+        g = []
+        while ds:
+            g.append(ds[-3:])
+            ds = ds[:-3]
+        return "_".join(reversed(g))
     if k == 0:
         return str(d)
     if k == 1:
@@ -295,12 +316,20 @@ def struct_decl(s: Struct, derives='', doc=False):
     lines.append(head_text(s, cn) + " {")
     for i, f in enumerate(s.fields):
         if doc or f.doc:
-            lines.append(f"    /// documented field {f.name}")
-            if i % 3 == 1:
-                lines.append("    ///")
-                lines.append("    /// second paragraph of the field's documentation, with `code` and a [link](https://example.org)")
-            elif i % 3 == 2:
-                lines.append('    #[doc = "documentation written as an attribute"]')
+            # the documentation of a field may be written in any of the forms rustdoc accepts; each alone must be enough
+            if i % 6 == 3:
+                lines.append('    #[doc = concat!("documented field, ", "by a macro expression")]')
+            elif i % 6 == 4:
+                lines.append('    #[doc = "documented by an attribute only"]')
+            elif i % 6 == 5:
+                lines.append('    #[doc = stringify!(documented by another macro expression)]')
+            else:
+                lines.append(f"    /// documented field {f.name}")
+                if i % 6 == 1:
+                    lines.append("    ///")
+                    lines.append("    /// second paragraph of the field's documentation, with `code` and a [link](https://example.org)")
+                elif i % 6 == 2:
+                    lines.append('    #[doc = "documentation written as an attribute"]')
         lines.append(f"    {field_text(f, i)},")
     lines.append("}")
     txt = "\n".join(lines)
